@@ -114,6 +114,11 @@ func placements(root *types.Named, typ, field string) []string {
 	return out
 }
 
+func isConstVal(v ssa.Value) bool {
+	_, ok := v.(*ssa.Const)
+	return ok
+}
+
 func v0name(v ssa.Value) string {
 	if _, ok := v.(*ssa.Const); ok {
 		return "const"
@@ -243,12 +248,34 @@ func runC06(c *Ctx) {
 	if p := preds["v0.5.0"]; p != nil {
 		reads := readsOf(p)
 		digit := false
+		lo, hi := false, false
 		for _, iff := range ir.Ifs(p) {
 			d := c.condDesc(iff, 0, nil)
 			if strings.Contains(d, "Devices[*].Name[*]") && (strings.Contains(d, "48") || strings.Contains(d, "57")) {
 				digit = true
 			}
+			// exact bounds: '0' <= b and b <= '9', in either spelling
+			op, x, y, isCmp := ir.Comparison(iff)
+			if !isCmp {
+				continue
+			}
+			if k, isInt := ir.ConstInt(x); isInt && !isConstVal(y) {
+				x, y = y, x
+				op = map[token.Token]token.Token{token.LSS: token.GTR, token.LEQ: token.GEQ, token.GTR: token.LSS, token.GEQ: token.LEQ, token.EQL: token.EQL, token.NEQ: token.NEQ}[op]
+				_ = k
+			}
+			k, isInt := ir.ConstInt(y)
+			if !isInt || !strings.Contains(c.valueDesc(x), "Devices[*].Name[*]") {
+				continue
+			}
+			if (op == token.GEQ && k == '0') || (op == token.GTR && k == '0'-1) {
+				lo = true
+			}
+			if (op == token.LEQ && k == '9') || (op == token.LSS && k == '9'+1) {
+				hi = true
+			}
 		}
+		digit = digit && lo && hi
 		r.Check("C06.2", "feature:digit-leading-name@v0.5.0", reads[".Devices[*].Name"] && digit, c.U.Pos(p.Pos()), "the v0.5.0 predicate tests the first byte of every device name against '0'..'9'")
 	} else {
 		r.Violation("C06.2", "feature:digit-leading-name@v0.5.0", "", "no predicate for v0.5.0")
@@ -271,6 +298,22 @@ func runC06(c *Ctx) {
 	for v, p := range preds {
 		if p == nil {
 			continue
+		}
+		// a predicate that looks into devices does so in a loop over all of them (a loop whose
+		// body always returns is no loop at all in the flow graph: only device 0 is seen)
+		readsDevices, hasDevLoop := false, false
+		for pl := range readsOf(p) {
+			if strings.HasPrefix(pl, ".Devices[*]") {
+				readsDevices = true
+			}
+		}
+		for _, l := range ir.Loops(p) {
+			if d := c.valueDesc(l.Over); strings.Contains(d, "Devices") {
+				hasDevLoop = true
+			}
+		}
+		if readsDevices && !hasDevLoop {
+			r.Violation("C06.3", "devices-loop:"+v+":missing", c.U.Pos(p.Pos()), c.U.RelName(p)+" reads fields of spec.Devices[...] but no loop over the devices exists in its flow graph: at most one device is examined")
 		}
 		for _, l := range ir.Loops(p) {
 			d := c.valueDesc(l.Over)
@@ -337,6 +380,14 @@ func runC06(c *Ctx) {
 						if cb, isConst := ir.ConstBool(v); isConst {
 							if !cb {
 								r.Violation("C06.3", key, c.pos(ret), c.U.RelName(p)+" leaves the loop over "+c.valueDesc(l.Over)+" early with the verdict false: elements after the first non-matching one are not examined")
+							}
+							continue
+						}
+						if bin, isBin := v.(*ssa.BinOp); isBin && body[bin.Block()] {
+							// `return len(x) > 0` inside the loop: whatever the comparison says ends the walk
+							switch bin.Op {
+							case token.EQL, token.NEQ, token.LSS, token.LEQ, token.GTR, token.GEQ:
+								r.Violation("C06.3", key, c.pos(ret), c.U.RelName(p)+" leaves the loop over "+c.valueDesc(l.Over)+" with the outcome of a comparison made on one element ("+bin.String()+"): when it is false the remaining elements are never examined")
 							}
 							continue
 						}
